@@ -195,8 +195,8 @@ def run_case(desc):
             llog, elog = probes.new_log(scratch, "lazy"), probes.new_log(scratch, "eager")
             try:
                 with quiet():
-                    lazy_p = daggen.build_pipeline(case, log=llog, pipeline_kwargs={"lazy": True})
-                    eager_p = daggen.build_pipeline(case, log=elog)
+                    lazy_p = daggen.build_pipeline(case, log=llog, pipeline_kwargs={"lazy": True}, explicit_defaults=(i % 4 == 2))
+                    eager_p = daggen.build_pipeline(case, log=elog, explicit_defaults=(i % 4 == 2))
             except Exception as e:  # noqa: BLE001
                 v.bad(exc_sig(e, "refused-construct"), f"valid DAG refused: {exc_msg(e)}", case=daggen.describe(case))
                 continue
